@@ -815,8 +815,10 @@ func (c *Client) CreateSession(ctx context.Context, cfg *uasc.SessionConfig) (*S
 
 		err := sc.VerifySessionSignature(res.ServerCertificate, nonce, res.ServerSignature.Signature)
 		if err != nil {
+			// the server did not prove possession of its certificate's key:
+			// fail the call instead of continuing without a session
 			log.Printf("error verifying session signature: %s", err)
-			return nil
+			return ua.StatusBadSecurityChecksFailed
 		}
 
 		// Ensure we have a valid identity token that the server will accept before trying to activate a session
